@@ -11,7 +11,8 @@ import (
 
 var h04fUnits = []string{"ns/op", "sec/op", "B/op", "MB/s", "B/s"}
 var h04fBase = []string{"sec/op", "sec/op", "B/op", "B/s", "B/s"}
-var h04fQueries = []string{".unit:ns/op", ".unit:sec/op", ".unit:MB/s", ".unit:B/s", "-.unit:ns/op", ".unit:(ns/op OR B/op)", ".unit:/^ns/", "-.unit:/^MB/", ".unit:/^(sec|B)\\//"}
+var h04fQueries = []string{".unit:ns/op", ".unit:sec/op", ".unit:MB/s", ".unit:B/s", "-.unit:ns/op", ".unit:(ns/op OR B/op)", ".unit:/^ns/", "-.unit:/^MB/", ".unit:/^(sec|B)\\//",
+	".unit:(ns/op OR /^B/)", ".unit:(/s$/)", "-.unit:(/^B/ OR sec/op)", ".unit:/^B\\/o/ OR .unit:MB/s"}
 
 func h04fWant(q int, written, base string) bool {
 	named := func(n string) bool { return written == n || base == n }
@@ -32,6 +33,14 @@ func h04fWant(q int, written, base string) bool {
 		return written != "MB/s"
 	case 8:
 		return true // every listed unit has base sec/... or B/...
+	case 9: // value lists and written-out alternatives that mix words and regular expressions
+		return named("ns/op") || base[0] == 'B'
+	case 10:
+		return base == "B/s"
+	case 11:
+		return false
+	case 12:
+		return written == "B/op" || named("MB/s")
 	}
 	return named("ns/op") || named("B/op")
 }
